@@ -219,6 +219,10 @@ fn logged_cond(id: i64, s: &Sx, log: &SharedLog) -> CondBox {
     CondBox(Box::new(Logged { id, inner: parse_cond(s), log: log.clone() }))
 }
 fn logged_mod(id: i64, s: &Sx, log: &SharedLog) -> ModBox {
+    if id < 0 {
+        // the modifiers a preset attaches are not instrumented; neither are their hand-written counterparts
+        return ModBox(parse_mod(s));
+    }
     ModBox(Box::new(LoggedMod { id, inner: parse_mod(s), log: log.clone() }))
 }
 
@@ -489,7 +493,9 @@ impl Runner {
         fn scan_pads(s: &Sx, n: &mut i64) {
             match s {
                 Sx::P(v) => {
-                    if v.first().map(|h| matches!(h, Sx::A(x) if x == "mkPad")).unwrap_or(false) {
+                    // pads numbered 10 and up are "late": they are spawned when a frame lists them for the first time
+                    // (typically into the entity slot a gamepad that just went away has freed)
+                    if v.first().map(|h| matches!(h, Sx::A(x) if x == "mkPad")).unwrap_or(false) && v[1].int() < 10 {
                         *n = (*n).max(v[1].int() + 1);
                     }
                     v.iter().for_each(|x| scan_pads(x, n));
@@ -617,11 +623,23 @@ impl Runner {
         }
         // gamepads: the listed ones exist with the listed state; the others are gone
         let pad_ents: Vec<(i64, Entity)> = world.resource::<Slots>().pads.iter().map(|(&k, &v)| (k, v)).collect();
-        let mut listed = vec![];
+        let listed: Vec<i64> = a[4].list().iter().map(|p| p.app().1[0].int()).collect();
+        // the gamepads that are no longer listed go first, so that a late one can take over a freed entity slot
+        for &(id, ent) in &pad_ents {
+            if !listed.contains(&id) && world.get_entity(ent).is_ok() {
+                world.despawn(ent);
+            }
+        }
+        for &id in &listed {
+            if id >= 10 && !world.resource::<Slots>().pads.contains_key(&id) {
+                let ent = world.spawn(Gamepad::default()).id();
+                world.resource_mut::<Slots>().pads.insert(id, ent);
+            }
+        }
+        let pad_ents: Vec<(i64, Entity)> = world.resource::<Slots>().pads.iter().map(|(&k, &v)| (k, v)).collect();
         for p in a[4].list() {
             let (_, b) = p.app(); // mkPad id [buttons] [(pair axis q)]
             let id = b[0].int();
-            listed.push(id);
             let ent = pad_ents.iter().find(|x| x.0 == id).unwrap().1;
             if let Some(mut g) = world.get_mut::<Gamepad>(ent) {
                 let pressed = ilist(&b[1]);
@@ -639,11 +657,6 @@ impl Runner {
                     let (_, c) = ax.app();
                     g.analog_mut().set(paxis_of(c[0].int()), c[1].f());
                 }
-            }
-        }
-        for (id, ent) in pad_ents {
-            if !listed.contains(&id) && world.get_entity(ent).is_ok() {
-                world.despawn(ent);
             }
         }
         // UI elements
